@@ -35,6 +35,10 @@ class X(metaclass=Meta):
     pass
 
 
+class XM(metaclass=Meta):
+    marker = 2
+
+
 CLASSES = [A, B, C, X]
 NAMES = ['A', 'B', 'C', 'X']
 
@@ -56,6 +60,12 @@ def matches(reg, t):
         return isinstance(t, Meta)
     if kind == 'detector':
         return t is cls
+    if kind == 'class+attr':      # all given criteria must hold together
+        return (issubclass(t, cls) if allow_sub else t is cls) and hasattr(t, 'marker')
+    if kind == 'class+meta':
+        return (issubclass(t, (cls, X)) if allow_sub else (t is cls or t is X)) and isinstance(t, Meta)
+    if kind == 'attr+meta':
+        return hasattr(t, 'marker') and isinstance(t, Meta)
     if kind == 'two':       # register(A-or-whatever, X): classes tuple
         return issubclass(t, (cls, X)) if allow_sub else (t is cls or t is X)
     raise AssertionError(kind)
@@ -81,6 +91,12 @@ def do_register(reg, r):
         reg.register(metaclass=Meta, priority=r['prio'])(r['fn'])
     elif kind == 'detector':
         reg.register(detector=lambda t, c=cls: t is c, priority=r['prio'])(r['fn'])
+    elif kind == 'class+attr':
+        reg.register(cls, attr='marker', **kw)(r['fn'])
+    elif kind == 'class+meta':
+        reg.register(cls, X, metaclass=Meta, **kw)(r['fn'])
+    elif kind == 'attr+meta':
+        reg.register(attr='marker', metaclass=Meta, priority=r['prio'])(r['fn'])
     else:
         reg.register(cls, X, **kw)(r['fn'])
 
@@ -91,7 +107,7 @@ def patterns(k):
     return [''.join(p) + 'Q' for p in itertools.product('RQ', repeat=k - 1) if 'R' in p]
 
 
-def history(V, reg, pattern, kinds, reg_classes, res_classes, fallback=None):
+def history(V, reg, pattern, kinds, reg_classes, res_classes, fallback=None, first_kind=None):
     regs = []
     for step, op in enumerate(pattern):
         if op == 'Q':
@@ -107,7 +123,7 @@ def history(V, reg, pattern, kinds, reg_classes, res_classes, fallback=None):
             if regs:
                 V.cover('resolved-after-register')
         else:
-            r = {'kind': V.pick('kind%d' % step, kinds) if len(kinds) > 1 else kinds[0],
+            r = {'kind': first_kind if first_kind and not regs else V.pick('kind%d' % step, kinds) if len(kinds) > 1 else kinds[0],
                  'cls': V.pick('cls%d' % step, reg_classes),
                  'allow_sub': V.bool('sub%d' % step), 'prio': V.int('prio%d' % step, -1, 1), 'fn': mk_fn(step)}
             do_register(reg, r)
@@ -136,20 +152,23 @@ for _p in patterns(5):
        bounds='as registry/class, sequence %s' % _p)(_mk_class(_p, False))
 
 
-def _mk_criteria(pattern):
+KINDS = ['class', 'attr', 'meta', 'detector', 'two', 'class+attr', 'class+meta', 'attr+meta']
+
+
+def _mk_criteria(pattern, first_kind):
     def h(V):
         reg = TypeRegistry('t', cache=True)
-        history(V, reg, pattern, ['class', 'attr', 'meta', 'detector', 'two'], [A, B], [A, B, C, X])
+        history(V, reg, pattern, KINDS, [A, B], [A, B, C, X, XM], first_kind=first_kind)
     return h
 
 
-for _p in patterns(3):
-    ob('registry/criteria/' + _p, marks=['resolved-after-register'], budget=(90, 300),
-       bounds='registration criteria picked from {class, attr="marker", metaclass, detector, two classes}; sequence %s; '
-              'resolve over {A, B(has marker), C, X(metaclass Meta)}' % _p)(_mk_criteria(_p))
-for _p in patterns(4):
-    ob('registry/criteria/' + _p, marks=['resolved-after-register'], budget=(90, 400), thorough_only=True,
-       bounds='as registry/criteria, sequence %s' % _p)(_mk_criteria(_p))
+for _p in patterns(3) + patterns(4):
+    for _k in KINDS:
+        ob('registry/criteria/%s/%s' % (_p, _k), marks=['resolved-after-register'], budget=(90, 400), thorough_only=len(_p) > 3,
+           bounds='registration criteria picked from {class, attr="marker", metaclass, detector, two classes, class+attr, '
+                  'classes+metaclass, attr+metaclass (combined criteria must hold together)} (the first registration is %s); '
+                  'sequence %s; resolve over {A, B(has marker), C, X(metaclass Meta), XM(metaclass and marker)}' % (_k, _p))(
+            _mk_criteria(_p, _k))
 
 
 def _mk_base(pattern):
